@@ -54,8 +54,8 @@ CLAIMED = {
     "C13": ("evaluate of eight scorers on a cut row of symbolic integers in [-2, n+2]^k: the scorer's own validation "
             "forks on them, indexing case-splits all feasible values through NumPy's real indexing; z3 decides on "
             "every returning path that the path condition implies a valid cut, on every raising path that the "
-            "exception is ValueError and the cut invalid, and (L2 family) that the value is the definition; plus "
-            "concrete malformed arrays",
+            "exception is ValueError and the cut invalid, and (L2 family) that the value is the definition; four compositions "
+            "over costs with min_size > 1 on symbolic cuts over concrete data; plus concrete malformed arrays",
             "4.C13"),
     "C15": ("fit with a symbolic scale on dummy frames: penalty_/threshold_ equal scale x the documented default (z3, "
             "linear in the scale); the four MVCAPA penalty families with symbolic scale: non-negative, cumulative "
@@ -105,7 +105,8 @@ CLAIMED = {
             "data, a caller-side buffer refilled in place between fit and predict with thresholds tuned at fit) and their "
             "fresh-object references run in the same symbolic path with dataset-tagged table scorers; observed outputs compared "
             "as detections and z3 terms; fit / evaluate histories of eight scorers on symbolic data incl. the same cuts on "
-            "same-shape data, a reused buffer and refits on views",
+            "same-shape data, a reused buffer and refits on views; native run: the caller's float64 buffers are bit-for-bit "
+            "unchanged after fit / evaluate / predict / transform (testing part)",
             "4.C10"),
 }
 PENDING = {}
@@ -148,7 +149,7 @@ man = dict(
     not_applicable=na,
     notes="All checks: ./check <id> --tier quick|thorough. Exit 0 held / 1 reproduced violation / 3 harness error. "
           "Measured wall times on 16 cores, repaired tree, each thorough command run end-to-end (0 inconclusive obligations in every run): "
-          "quick C01 10s C02 11 C03 59 C04 21 C05 11 C06 5 C07 13 C08 4 C09 9 C10 115 C11 44 C12 28 C13 5 C14 11 C15 23 C16 27 C17 6 C18 12 (~7 min); "
+          "quick C01 10s C02 21 C03 38 C04 19 C05 7 C06 11 C07 33 C08 3 C09 7 C10 71 C11 27 C12 31 C13 4 C14 10 C15 15 C16 13 C17 7 C18 9 (~5.5 min); "
           "thorough C01 73s C02 279 C03 181 C04 162 C05 53 C06 38 C07 433 C08 61 C09 337 C10 351 C11 134 C12 106 C13 21 C14 50 C15 297 C16 806 C17 83 C18 145 (~60 min). "
           "Thorough additionally runs the CrossHair contracts (C02, C03, C08, C09) and the sampled z3-4.8.12 / cvc5 cross-check of obligations.",
 )
